@@ -429,6 +429,9 @@ Proof.
   destruct Hint as [[Hne _] _]. destruct (sn_int n) as [|d ds]; [congruence|].
   destruct (sn_neg n); cbn [app]; intros P.
   - unfold i64_min.
+    destruct (N.eqb_spec (N_of_digits (d :: ds)) 0) as [Hz|Hz].
+    { intros E; injection E as <-. rewrite Hz. reflexivity. }
+    destruct (Z.eqb_spec (- Z.of_N (N_of_digits (d :: ds))) 0) as [Hz'|Hz']; [lia|].
     destruct (Z.leb_spec (Z.of_N (N_of_digits (d :: ds))) 9223372036854775808) as [H|H];
     destruct (Z.leb_spec (-9223372036854775808) (- Z.of_N (N_of_digits (d :: ds)))) as [H'|H'];
       try lia.
